@@ -11,16 +11,18 @@ func TestProp(t *testing.T) {
 	defer r.Finish()
 	r.Rule("generated schemas x valid operations x variables through the engine's normalization sequence (Normalize with the Execute option set, ValidateForSchema, Normalize(ExtractVariables), VariablesMapper); non-trivial = the normalized print differs from the input by more than whitespace and the operation has >= 2 of {fragment on abstract type, duplicate/overlapping field, @skip/@include on a variable, literal needing extraction, default value, list coercion}; distinct by (schema, operation, variables)")
 	r.Assume("gqlparser v2.5.30 is the validity second opinion", "harness/internal/ref executes operations per spec section 6 (the 'any backend' is the monolith over two universe seeds)")
+	r.Rule("history part: 2-5 valid operations normalized in sequence by one set of long-lived normalizer/validator/mapper instances; oracle: print, variables and remap table equal those of fresh instances; non-trivial = at least two operations of the history end with variables")
 	r.Regress(dispatch())
 	r.RunProbes(probes())
 	semPart.Run(r)
 	canonPart.Run(r)
+	reusePart.Run(r)
 }
 
 func TestReplay(t *testing.T) { pbt.StdReplay(t, "C03", dispatch()) }
 
 func dispatch() pbt.Dispatch {
-	return pbt.Dispatch{}.Add(semPart.Name, semPart.Handler()).Add(canonPart.Name, canonPart.Handler()).WithProbes(probes())
+	return pbt.Dispatch{}.Add(semPart.Name, semPart.Handler()).Add(canonPart.Name, canonPart.Handler()).Add(reusePart.Name, reusePart.Handler()).WithProbes(probes())
 }
 
 func TestMinimize(t *testing.T) {
